@@ -339,10 +339,6 @@ impl Compiler {
 
         self.push_span(node, ctx.ast);
 
-        if !self.frame_stack.is_empty() {
-            self.frame_mut().last_node_was_return = matches!(&node.node, Node::Return(_));
-        }
-
         let result = match &node.node {
             Node::Null => {
                 let result = self.assign_result_register(ctx)?;
@@ -651,6 +647,12 @@ impl Compiler {
                 unreachable!();
             }
         };
+
+        // This is set once the node has been compiled, a return that's nested in the node
+        // (e.g. in an if block without an else) doesn't cover all of the node's paths.
+        if !self.frame_stack.is_empty() {
+            self.frame_mut().last_node_was_return = matches!(&node.node, Node::Return(_));
+        }
 
         self.pop_span();
 
